@@ -293,6 +293,7 @@ pub fn check_case(ctx: &mut Ctx, c: &Case, all_entries: bool) {
             }
         }
     }
+    ctx.sample(|| json!({"text": clip(&c.text, 160), "token_limit": c.token_limit, "recursion_limit": c.recursion_limit}));
     if c.text.len() <= 64 {
         ctx.nontrivial(&format!("{}|{:?}|{:?}", c.text, c.token_limit, c.recursion_limit));
     } else {
